@@ -427,9 +427,14 @@ def judgeIts (prop : String) (st : DState) (fields : List String) (impl : Option
     | some .okPlain, .okPlain => true
     | _, _ => false
   match fields with
-  | ["tx", src, dst, func, _egld, _esdt, args] =>
+  | ["tx", src, dst, func, egld, esdt, args] =>
     match ofHex src, ofHex dst, parseArgs args with
     | some src, some dst, some args =>
+      -- C17, first sentence: EVERY user operation that attaches value to a call of the service — an operation the rules
+      -- refuse (the value never leaves the sender) must not be accepted with the value staying behind
+      if prop == "C17" && w.kind dst == some .its && !itsObserves prop func && (egld != "0" || esdt != "-") then
+        (if implOk impl && !modelOk then "VIOLATION:value-carrying-operation-accepted-outside-rules" else "ok")
+      else
       -- C04: tokens are handed out by a manager only on behalf of the service (`giveToken` restricted to it)
       if prop == "C04" && w.kind dst == some .tokenManager && (func == "giveToken" || func == "mint") then
         (if implOk impl && !modelOk then "VIOLATION:tokens-handed-out-by-a-manager-outside-the-service" else "ok")
